@@ -6,3 +6,5 @@ import Rp2.Props.C01
 #print axioms Rp2.pick_some
 #print axioms Rp2.C01.pipeline_best_lot
 #print axioms Rp2.C01.lots_sorted_by_instant_then_row
+#print axioms Rp2.C01.method_in_force_iff
+#print axioms Rp2.C01.method_in_force_independent_of_line_order
